@@ -110,3 +110,39 @@ Theorem C17_client_write_sends_exact_bytes : forall s dest,
   cwait_for_data s = (cset_state s Q_WAIT_FOR_OPER, [CSend 215 (Z.land dest 255) 6 (Dm14Model.dm16_frame (q_bytes s))], None).
 Proof. exact write_sends_exact_bytes. Qed.
 Print Assumptions C17_client_write_sends_exact_bytes.
+
+(* ------------------------------------------------------------------------------------------------------------------
+   End to end on the composed model (theories/Dm14Net.v): the requesting side (Dm14Query) against the serving side
+   (DM14Server + MemoryAccess + the serving application answering respond()), message by message — what one side sends is
+   what the other hears; a transaction is the causal fixpoint of the two `during' lists.  The data bytes / values are
+   universally quantified (any integers: they never decide a branch); addresses, pointer and seed are concrete per setup
+   (six setups: with and without seed/key, with and without a proceed callback, addresses 0, 254, pointer 0 and 0xFFFFFFFF). *)
+From J1939 Require Import Dm14Net.
+From J1939P Require Import Dm14NetProofs.
+
+(* T17.3: a read of 1..7 bytes returns EXACTLY the serving application's bytes (raw) or the integers they encode at the
+   requested size/signedness; afterwards both sides are idle with their original subscriptions; the requester has sent
+   exactly what the server was fed plus the closing DM14 *)
+Theorem C17_read_end_to_end_exact : forall u, In u setups -> forall data size signed raw,
+  (1 <= length data <= 7)%nat -> read_ok u size signed raw data.
+Proof. exact read_exact. Qed.
+Print Assumptions C17_read_end_to_end_exact.
+
+(* T17.4: a write hands EXACTLY the little-endian bytes of the values to the serving application's respond() *)
+Theorem C17_write_end_to_end_exact_bytes : forall u, In u setups -> forall values, (1 <= length values <= 7)%nat -> write_ok u 1 values.
+Proof. exact write_exact_1. Qed.
+Print Assumptions C17_write_end_to_end_exact_bytes.
+Theorem C17_write_end_to_end_exact_words : forall u, In u setups -> forall values, (1 <= length values <= 3)%nat -> write_ok u 2 values.
+Proof. exact write_exact_2. Qed.
+Print Assumptions C17_write_end_to_end_exact_words.
+Theorem C17_write_end_to_end_exact_dword : forall u, In u setups -> forall v, write_ok u 4 [v].
+Proof. exact write_exact_4. Qed.
+Print Assumptions C17_write_end_to_end_exact_dword.
+
+(* T17.6: back to back on the same objects *)
+Theorem C17_second_read_after_first : forall b1 b2 b3 c1 c2 size signed raw,
+  let t1 := txn_read cfg_key xor_key (init_srv [4660; 77] []) init_cli 249 212 1 2449473539 3 size signed raw [b1; b2; b3] in
+  let t2 := txn_read cfg_key xor_key (t_srv t1) (t_cli t1) 249 212 0 5 2 size signed raw [c1; c2] in
+  t_ret t2 = CRValues (if raw then [c1; c2] else bytes_to_values (Z.to_nat size) signed [c1; c2]) /\ idle_cli (t_cli t2) /\ idle_srv (t_srv t2).
+Proof. exact second_read_after_first. Qed.
+Print Assumptions C17_second_read_after_first.
